@@ -160,6 +160,23 @@ Proof.
   - intros ->. reflexivity.
 Qed.
 
+(** the PublishWill event of the epilogue names the client under the id the link registered
+    with the router (where the will is stored): the CONNECT's id, or for an empty one the id
+    the broker assigned *)
+Lemma c16_will_event_id : forall connect_id generated,
+  will_event_id (remote_ids connect_id generated) = registered_id connect_id (remote_ids connect_id generated).
+Proof. intros [ | c r] generated; reflexivity. Qed.
+
+Lemma c16_will_event_id_assigned : forall generated,
+  id_assigned (remote_ids [] generated) = Some generated /\
+  will_event_id (remote_ids [] generated) = generated.
+Proof. intros generated. split; reflexivity. Qed.
+
+Lemma c16_will_event_id_named : forall connect_id generated, connect_id <> [] ->
+  id_assigned (remote_ids connect_id generated) = None /\
+  will_event_id (remote_ids connect_id generated) = connect_id.
+Proof. intros [ | c r] generated H; [contradiction | split; reflexivity]. Qed.
+
 Example c16_decision_example :
   epilogue (classify (Some (ENetworkIo ConnectionAborted))) WaitTimeout = (true, true) /\
   epilogue (classify (Some ELink)) WaitTimeout = (false, true) /\
